@@ -318,6 +318,62 @@ def run_lines(exe, lines, timeout=600, shards=1, args=()):
     return res
 
 
+# ---- canonicalisation of reals: (r xTEXT) -> (r #f32bits), exact decimal -> nearest f32 (ties to even) ----
+def f32_bits_of_decimal(text):
+    from fractions import Fraction
+    t = text.strip()
+    low = t.lower()
+    if low in ('nan', '-nan', '+nan'):
+        return 0x7fc00000
+    neg = t.startswith('-')
+    if t[:1] in '+-':
+        t = t[1:]
+    if t.lower() in ('inf', 'infinity'):
+        return 0xff800000 if neg else 0x7f800000
+    if not re.fullmatch(r'[0-9]*\.?[0-9]*', t) or not re.search(r'[0-9]', t):
+        return None
+    ip, _, fp = t.partition('.')
+    x = Fraction(int(ip or '0')) + (Fraction(int(fp), 10 ** len(fp)) if fp else 0)
+    sign = 0x80000000 if neg else 0
+    if x == 0:
+        return sign
+    # find e with 2^e <= x < 2^(e+1)
+    e = x.numerator.bit_length() - x.denominator.bit_length()
+    if Fraction(2) ** e > x:
+        e -= 1
+    elif Fraction(2) ** (e + 1) <= x:
+        e += 1
+    e = max(e, -126)                    # subnormals share the exponent -126
+    q = x / (Fraction(2) ** (e - 23))   # mantissa units
+    m = q.numerator // q.denominator
+    rem = q - m
+    if rem > Fraction(1, 2) or (rem == Fraction(1, 2) and m % 2 == 1):
+        m += 1
+    if m >= 1 << 24:
+        m >>= 1
+        e += 1
+    if e > 127:
+        return sign | 0x7f800000
+    if m < (1 << 23):                   # subnormal
+        return sign | m
+    return sign | ((e + 127) << 23) | (m - (1 << 23))
+
+
+def canon_reals(s):
+    def rep(m):
+        try:
+            txt = bytes.fromhex(m.group(1)).decode('latin-1')
+        except ValueError:
+            return m.group(0)
+        b = f32_bits_of_decimal(txt)
+        return '(r #%08x)' % b if b is not None else m.group(0)
+    return re.sub(r'\(r x([0-9a-f]*)\)', rep, s)
+
+
+def compare_canon_reals(a, b):
+    return a == b or canon_reals(a) == canon_reals(b)
+
+
 def split_impl(line):
     """harness line '<sx> ||| <verdict>'"""
     if ' ||| ' in line:
